@@ -117,8 +117,10 @@ def named_cause(kind, sw, authorized):
             return {-201}
         if sw in POW:
             return {-202}
-        if sw == 0x6B92:
-            return {-202, -204}      # 'invalid coinbase txn': PoW or block format, docs unclear
+        if sw in (0x6B90, 0x6B91, 0x6B92, 0x6B97, 0x6B98):
+            # BTC header / merkle proof / coinbase txn of the merge-mining proof invalid or
+            # too long: 'PoW validation failed' or 'invalid input blocks', docs do not say
+            return {-202, -204}
         if sw in BLOCK_FMT_ADV:
             return {-204}
         if kind == "adv:brochunk" and sw in (0x6B9F, 0x6BA0, 0x6BA1):
@@ -249,6 +251,21 @@ def run_case(c):
         if pexc is not None or prep is None or prep["errorcode"] != 0:
             raise Violation("warm-up-request-failed:%s" % REQS[key]["command"], "%r %r" % (
                 pre[:100], pexc))
+    if c.get("after"):
+        # other requests, each with a device outcome of its own, were served before on this
+        # manager: the code reported for THIS request reflects this request's outcome only
+        for pre in c["after"]:
+            pk = (pre["m"], pre["r"])
+            w.faults[w.nex + pre["i"]] = pre["o"]
+            mw.serve_line(mw.handler(p), json.dumps(REQS[pk]).encode())
+            mw.check_sim(w)
+            w.faults.clear()
+    return judge(c, w, p, key, kinds)
+
+
+def judge(c, w, p, key, kinds):
+    i, o = c["i"], c["o"]
+    kind = kinds[i]
     base = w.nex
     if isinstance(o, list):
         w.faults[base + i] = ("op", o[1], op_answer_data(kind, o[1]))
@@ -258,6 +275,12 @@ def run_case(c):
     line = json.dumps(REQS[key]).encode()
     out, exc = mw.serve_line(h, line)
     mw.check_sim(w)
+    not_reached = o is not None and w.nex <= base + i
+    if not_reached:
+        # the request made fewer exchanges than planned (e.g. answered from what an earlier
+        # run left behind): the outcome was never produced, the request counts as un-faulted
+        w.faults.pop(base + i, None)
+        o = None
     rep = mw.parse_reply(out)
     cmd = REQS[key]["command"]
     fam = kind.split(":")[0]
@@ -265,6 +288,8 @@ def run_case(c):
         c["m"], c["r"], i, kind, hex(o) if isinstance(o, int) else o)
     labels = ["req:%s/%s" % key, "outcome:" + (
         "sw" if isinstance(o, int) else ("op" if isinstance(o, list) else str(o)))]
+    if not_reached:
+        labels.append("outcome-not-reached")
 
     # (4) an error status inside the device's own range never stops the manager
     if isinstance(o, int) and in_device_range(o) and exc is not None:
@@ -293,8 +318,9 @@ def run_case(c):
             raise Violation("nominal-not-success:%s" % cmd, "%s -> %r" % (where, rep))
     elif code in (0, 1):
         ok = False
-        if c["r"] == "uiHb" and kind == "exit" and o in ("read", "write"):
-            ok = True     # the code expects the link to drop there (see C11/C13)
+        if c["r"] == "uiHb" and kind == "exit" and o in ("read", "write", "timeout"):
+            ok = True     # the link is expected to drop there (see C11/C13); with a read
+            #               error or a time-out the device has acted on the command
         elif last is not None and success_ops is not None:
             ok = success_ops.get(code) == last[2]
         elif last is not None and success_ops is None and isinstance(o, list):
@@ -328,6 +354,10 @@ def run_case(c):
                                     where, rep, sorted(named)))
     if c.get("warm"):
         labels.append("warm")
+    if c.get("after"):
+        labels.append("after-other-outcomes")
+        if any(a["r"] != c["r"] for a in c["after"]):
+            labels.append("after-another-command")
     return Out(labels, o is not None)
 
 
@@ -347,7 +377,41 @@ class WarmCells:
         return c
 
 
-REQUIRED_LABELS = {t: ["warm", "outcome:sw", "outcome:op", "outcome:timeout", "outcome:read",
+def _named_cells(m="v5"):
+    """(request, step, status word) for every status word with a documented cause."""
+    pl = plan()
+    out = []
+    for key in NAMES:
+        if key[0] != m:
+            continue
+        authorized = key[1] in ("sign_auth", "sign_segwit")
+        seen = set()
+        for i, kind in enumerate(pl[key]):
+            if kind in seen:
+                continue           # one step of each kind will do
+            seen.add(kind)
+            for sw in NAMED_SWS:
+                if named_cause(kind, sw, authorized) is not None:
+                    out.append({"m": key[0], "r": key[1], "i": i, "o": sw})
+    return out
+
+
+def cross_cells(tier, seed):
+    """Every ordered pair of named-cause outcomes of two requests on one manager (the first is
+    history, the second is judged), plus each named outcome after a successful run of every
+    other request."""
+    named = _named_cells()
+    out = []
+    for a in named:
+        for b in named:
+            if (a["r"], a["o"]) != (b["r"], b["o"]):
+                c = dict(b)
+                c["after"] = [a]
+                out.append(c)
+    return out
+
+
+REQUIRED_LABELS = {t: ["warm", "after-another-command", "outcome:sw", "outcome:op", "outcome:timeout", "outcome:read",
                        "outcome:write", "outcome:None", "named-cause"] +
                    ["req:%s/%s" % k for k in NAMES] for t in ("quick", "thorough")}
 
@@ -356,6 +420,9 @@ def stages(tier):
     return [EnumStage("matrix", lambda t, s: Cells(t, s), run_case,
                       exhaustive={"thorough": True},
                       budget_s={"quick": 150, "thorough": 2400}),
+            EnumStage("after-other-outcomes", cross_cells, run_case,
+                      exhaustive={"quick": True, "thorough": True},
+                      budget_s={"quick": 60, "thorough": 600}),
             EnumStage("after-a-successful-run", lambda t, s: WarmCells(t, s), run_case,
                       exhaustive={"quick": False, "thorough": False},
                       budget_s={"quick": 150, "thorough": 600})]
